@@ -252,19 +252,17 @@ theorem binop_wf (op : Op) (f1 f2 f' : File) (coords : List String) (h1 : WF f1)
       | some w =>
         simp only [hw]
         refine ⟨hw0.1, ?_⟩
-        have hsame : f1.shapeOf v0 = f2.shapeOf w := by
-          by_contra hne
-          apply hany
-          rw [List.any_eq_true]
-          refine ⟨v0, hv0, ?_⟩
-          simp only [Bool.and_eq_true, Bool.not_eq_true']
-          refine ⟨by simpa using hc, ?_⟩
-          simp only [hw]
-          simpa using hne
         have hw2 := (h2 w (var?_mem hw)).2
-        simp only [File.shapeOf] at hsame hw2 ⊢
-        rw [← hsame] at hw2
-        exact zipCells_hasShape _ _ _ _ hw0.2 hw2
+        have hr : hasShape (f1.shapeOf v0) (rightData f1 f2 v0 w) = true := by
+          unfold rightData
+          split
+          · rename_i hsame
+            have hsame' : f1.shapeOf v0 = f2.shapeOf w := by simpa using hsame
+            simp only [File.shapeOf] at hsame' hw2 ⊢
+            rw [hsame']; exact hw2
+          · exact build_hasShape _ _
+        simp only [File.shapeOf] at hr ⊢
+        exact zipCells_hasShape _ _ _ _ hw0.2 hr
 
 /-- **C01 (reorderDimensions).** -/
 theorem reorder_wf (f f' : File) (neworder : List String) (h : WF f)
